@@ -225,26 +225,39 @@ def erase(tree, new_keys, generated_classes, surplus=None):
 
 
 def import_map(tree):
-    """local name -> fully qualified dotted name, from every import statement of the file (any block)."""
+    """local name -> fully qualified dotted name, from every import statement of the file (any block).  Where one name is bound
+    by several statements, the binding in force at module level after a successful import wins: handlers of a `try` lose to
+    its body, statements nested in functions lose to module-level ones, and among equals the later statement wins."""
+    found = []          # (priority, running number, local name, qualified name, star?)
+
+    def visit(body, prio):
+        for node in body:
+            if isinstance(node, ast.Import):
+                for a in node.names:
+                    found.append((prio, len(found), a.asname or a.name.split(".")[0], a.name if a.asname else a.name.split(".")[0], False))
+            elif isinstance(node, ast.ImportFrom) and node.module and not node.level:
+                for a in node.names:
+                    if a.name != "*":
+                        found.append((prio, len(found), a.asname or a.name, node.module + "." + a.name, False))
+                    else:                       # a star import provides every public name of the module
+                        try:
+                            mod = importlib.import_module(node.module)
+                            for n in getattr(mod, "__all__", [x for x in vars(mod) if not x.startswith("_")]):
+                                found.append((prio, len(found), n, node.module + "." + n, True))
+                        except Exception:
+                            pass
+            elif isinstance(node, (ast.FunctionDef, ast.AsyncFunctionDef)):
+                visit(node.body, 0)
+            else:
+                for attr in ("body", "orelse", "finalbody"):
+                    if isinstance(getattr(node, attr, None), list):
+                        visit(getattr(node, attr), prio)
+                for h in getattr(node, "handlers", []) or []:
+                    visit(h.body, min(prio, 1))
+    visit(tree.body, 2)
     m = {}
-    for node in ast.walk(tree):
-        if isinstance(node, ast.Import):
-            for a in node.names:
-                if a.asname:
-                    m[a.asname] = a.name
-                else:
-                    m[a.name.split(".")[0]] = a.name.split(".")[0]
-        elif isinstance(node, ast.ImportFrom) and node.module and not node.level:
-            for a in node.names:
-                if a.name != "*":
-                    m[a.asname or a.name] = node.module + "." + a.name
-                else:                       # a star import provides every public name of the module
-                    try:
-                        mod = importlib.import_module(node.module)
-                        for n in getattr(mod, "__all__", [x for x in vars(mod) if not x.startswith("_")]):
-                            m.setdefault(n, node.module + "." + n)
-                    except Exception:
-                        pass
+    for prio, _, name, qual, star in sorted(found, key=lambda x: (not x[4], x[0], x[1])):     # stars first: explicit names override them
+        m[name] = qual
     return m
 
 
@@ -546,9 +559,18 @@ def run_cases(cases, procs=16):
 
 
 TYPE_SELS = [["int"], ["circle", "int"], ["circle", "square"], ["list", "none"], ["dict"], ["str", "circle", "none"], ["deep"],
-             ["tm", "int"], ["layer"], ["layer", "circle"],
+             ["tm", "int"],
              # records whose values are instances of classes of other modules (with k > 0: fields of generated TypedDict classes)
              ["dictcls"], ["dictcls", "int"], ["dictdeep", "dict"]]
+
+
+# a class nested in a class of another module: libcst imports the outer CLASS as if it were a module (recorded finding) and the
+# result cannot be imported - which would mask everything else in the case, so these selections are drawn rarely
+RARE_TYPE_SELS = [["layer"], ["layer", "circle"]]
+
+
+def pick_types(rng):
+    return rng.choice(RARE_TYPE_SELS) if rng.random() < 0.04 else rng.choice(TYPE_SELS)
 
 
 def gen_cases(pid, tier, seed):
@@ -563,7 +585,7 @@ def gen_cases(pid, tier, seed):
             for confine in confines:
                 for _ in range(n_each):
                     traced = rng.sample(fnames, rng.randint(1, len(fnames)))
-                    cases.append({"features": sorted(fs), "traced": traced, "types": {f: rng.choice(TYPE_SELS) for f in traced},
+                    cases.append({"features": sorted(fs), "traced": traced, "types": {f: pick_types(rng) for f in traced},
                                   "overwrite": rng.random() < 0.4, "confine": confine, "k": rng.choice([0, 3]),
                                   "via_cli": rng.random() < 0.5})
         plan.append({"family": label, "cases": len(cases) - n0})
